@@ -279,6 +279,8 @@ def parse_assumptions(out):
 def build_mlref(name, extract_v, model_ml, driver_ml, exe, deps_vo):
     """extract `extract_v` (writes <model_ml>.ml/.mli into ocaml/gen) and link driver.  Returns
     (ok, log, path)."""
+    # everything the extraction file itself Requires is a dependency too (robust against an incomplete deps_vo list)
+    deps_vo = list(dict.fromkeys(list(deps_vo) + [f + 'o' for f in coq_closure(extract_v)[1:]]))
     ok, log = coq_make(deps_vo)
     if not ok:
         return False, log[-4000:], None
